@@ -43,7 +43,20 @@ EirpFails(e) == Tag(e.err = "" /\ (e.fl >= 8 => e.idx = EIRPIndex(e.fl)), "C20.e
 EirpDecFails(e) == IF e.idx <= 15 THEN Tag(e.err = "" /\ e.integral /\ e.val = EIRPTable[e.idx + 1], "C20.eirpdec")
                    ELSE Tag(e.err = "error", "C20.eirpdec")
 
+\* ---- extended coverage (prefix "X.", never part of a property verdict): receiver sensitivity and link budget -------------
+\* S = -174 + 10 log10(BW) + NF + SNR (dBm), link budget = TX power - S; values in 1/1000 dB, float32 arithmetic: +-3
+Near(a, b, tol) == a - b <= tol /\ b - a <= tol
+IsPow10(n) == n \in {1, 10, 100, 1000, 10000, 100000, 1000000, 10000000}
+Log10Of(n) == CHOOSE k \in 0..7 : 10^k = n
+SensFails(e) ==
+  Tag(Near(e.s - e.s0, 10 * (e.nfc + e.snrc), 3), "X.sens-additive")
+  \o Tag(Near(e.s10 - e.s0, 10000, 3), "X.sens-decade")
+  \o Tag(Near(e.s2 - e.s0, 3010, 3), "X.sens-octave")
+  \o Tag(IsPow10(e.bw) => Near(e.s0, -174000 + 10000 * Log10Of(e.bw), 3), "X.sens-anchor")
+  \o Tag(Near(e.lb, 10 * e.txc - e.s, 3), "X.sens-budget")
+
 Fails(e) == CASE e.ev = "gps" -> GpsFails(e)
+              [] e.ev = "sens" -> SensFails(e)
               [] e.ev = "gpsback" -> GpsBackFails(e)
               [] e.ev = "gpspair" -> GpsPairFails(e)
               [] e.ev = "airtime" -> AirFails(e)
